@@ -69,3 +69,87 @@ pub fn verif_root() -> PathBuf {
 pub fn seed() -> u64 {
     std::env::var("VERIF_SEED").ok().and_then(|s| s.parse().ok()).unwrap_or(1)
 }
+
+/// Text Lua 5.3 prints for a float (`%.14g`, with ".0" appended when it looks like an integer).
+pub fn lua_float_text(f: f64) -> String {
+    if f.is_nan() {
+        return if f.is_sign_negative() { "-nan".into() } else { "nan".into() };
+    }
+    if f.is_infinite() {
+        return if f < 0.0 { "-inf".into() } else { "inf".into() };
+    }
+    if f == 0.0 {
+        return if f.is_sign_negative() { "-0.0".into() } else { "0.0".into() };
+    }
+    // 14 significant digits
+    let sci = format!("{:.13e}", f); // d.ddddddddddddde[-]x
+    let (mant, exp) = sci.split_once('e').unwrap();
+    let exp: i32 = exp.parse().unwrap();
+    let neg = mant.starts_with('-');
+    let digits: String = mant.chars().filter(|c| c.is_ascii_digit()).collect(); // 14 digits
+    let mut out = String::new();
+    if neg {
+        out.push('-');
+    }
+    if exp < -4 || exp >= 14 {
+        let mut d = digits.trim_end_matches('0').to_string();
+        if d.is_empty() {
+            d.push('0');
+        }
+        out.push_str(&d[..1]);
+        if d.len() > 1 {
+            out.push('.');
+            out.push_str(&d[1..]);
+        }
+        out.push_str(&format!("e{}{:02}", if exp < 0 { "-" } else { "+" }, exp.abs()));
+        out
+    } else if exp >= 0 {
+        let int_len = (exp + 1) as usize;
+        let int_part = &digits[..int_len];
+        let frac = digits[int_len..].trim_end_matches('0');
+        out.push_str(int_part);
+        if frac.is_empty() {
+            out.push_str(".0");
+        } else {
+            out.push('.');
+            out.push_str(frac);
+        }
+        out
+    } else {
+        let zeros = (-exp - 1) as usize;
+        let frac_all = format!("{}{}", "0".repeat(zeros), digits);
+        let frac = frac_all.trim_end_matches('0');
+        out.push_str("0.");
+        out.push_str(frac);
+        out
+    }
+}
+
+/// Text `print` shows for a value snapshot of the specification (SyltValues!Render).
+pub fn render_value(v: &serde_json::Value) -> String {
+    match v["k"].as_str().unwrap_or("?") {
+        "int" => format!("{}", v["v"].as_i64().unwrap()),
+        "float" => {
+            let n = v["n"].as_i64().unwrap() as f64;
+            let d = v["d"].as_i64().unwrap() as i32;
+            lua_float_text(n / 2f64.powi(d))
+        }
+        "str" => v["v"].as_str().unwrap().to_string(),
+        "bool" => format!("{}", v["v"].as_bool().unwrap()),
+        "nil" => "nil".into(),
+        "tuple" => {
+            let es: Vec<String> = v["es"].as_array().unwrap().iter().map(render_value).collect();
+            if es.len() == 1 {
+                format!("({},)", es[0])
+            } else {
+                format!("({})", es.join(", "))
+            }
+        }
+        "list" => {
+            let es: Vec<String> = v["es"].as_array().unwrap().iter().map(render_value).collect();
+            format!("[{}]", es.join(", "))
+        }
+        "variant" => format!("{} {}", v["tag"].as_str().unwrap(), render_value(&v["val"])),
+        other => format!("<unprintable:{}>", other),
+    }
+}
